@@ -10,7 +10,8 @@ EXPLANATION = (
     "the range; GraphIterator::next advances through next_element; (R18b) ElementSearch::search drives GraphImpl::iter, "
     "never expands, stops only on Finish, and adds an element iff the handler says so.")
 DECIDED = ["R18a slot scan: monotone range, removed slots skipped, sign by is_valid_edge (DOM)",
-           "R18b ElementSearch::search dispatch (TABLE/MUST)"]
+           "R18b ElementSearch::search dispatch (TABLE/MUST)",
+           "R15f the ids condition compares signed ids (shared with C15)"]
 UNDECIDED = ["completeness over histories (that every existing element occupies a slot below capacity)"]
 
 G = "agdb::graph::GraphImpl::"
